@@ -439,7 +439,14 @@ class FuncLowerer:
         u = self.u
         rec = u.records.get(ty[1])
         if rec is None:
-            abort('init list for unknown record %s' % ty[1], e)
+            libc = {'iovec': [('iov_base', ('ptr', ('b', 'void'))), ('iov_len', ('b', 'unsigned long'))],
+                    'timespec': [('tv_sec', ('b', 'long')), ('tv_nsec', ('b', 'long'))]}.get(ty[1])
+            if libc is None or len(e.get('inner', [])) != len(libc):
+                abort('init list for unknown record %s' % ty[1], e)
+            out = []    # plain C struct of libc (declared by the prelude's system header): members in declaration order
+            for (fname, fty), el in zip(libc, e['inner']):
+                out += self.init_object('%s.%s' % (target, fname), fty, el, ind)
+            return out
         fields = [(k, c, x) for k, c, x in u.record_fields(rec) if k in ('field', 'base')]
         elems = e.get('inner', [])
         out = []
@@ -811,7 +818,7 @@ class FuncLowerer:
             if depth > 40:
                 return False
             t = n.get('type', {}).get('qualType', '')
-            if 'LogStream' in t or 'babylon::Logger' in t:
+            if re.search(r'LogStream\b', t) or 'babylon::Logger' in t:    # LogStream, DefaultLogStream ... but not LogStreamBuffer
                 return True
             return any(has_log(c, depth + 1) for c in n.get('inner', []) if isinstance(c, dict))
         return has_log(s)
@@ -1128,6 +1135,10 @@ class FuncLowerer:
                 u.need_struct(u.qualname(prec))
             fty = u.type_of(md)
             acc = '%s->%s' % (b, nm) if e.get('isArrow') else '%s.%s' % (b, nm)
+            fa = getattr(u.cfg, 'field_alias', {}).get((u.qualname(prec) if prec is not None else None, nm))
+            if fa is not None:
+                # group-declared overlap of this field with other storage of the same record (stated in DESIGN): '{obj}' is 'X.' / 'X->'
+                acc = fa.replace('{obj}', ('%s->' % b) if e.get('isArrow') else ('%s.' % b))
             if u.is_ref(fty):
                 return '(*%s)' % acc
             return acc
@@ -1205,6 +1216,18 @@ class FuncLowerer:
                 nm = '__base_' + sanitize(norm_name(step['name']).split('::')[-1])
                 if cur[0] == 'rec':
                     u.need_struct(cur[1])
+                    drec0 = u.records.get(cur[1])
+                    if drec0 is not None:
+                        # the path names a class template base without its arguments: take the field name of the unique matching base
+                        cands = []
+                        for b in drec0.get('bases', []):
+                            bt = u.resolve(parse_type(b['type'].get('desugaredQualType') or b['type']['qualType']))
+                            if bt[0] == 'rec':
+                                last = bt[1].split('::')[-1]
+                                if sanitize(last) == nm[len('__base_'):] or last.split('<')[0] == norm_name(step['name']).split('::')[-1].split('<')[0]:
+                                    cands.append('__base_' + sanitize(last))
+                        if len(set(cands)) == 1:
+                            nm = cands[0]
                 if is_ptr:
                     x = '(&(%s)->%s)' % (x, nm)
                 else:
